@@ -161,7 +161,8 @@ class GPTRank:
                                         'has_second_order': l.qa is not None and l.qg is not None}
                                     for n, l in self.pre._layers.values()}
             elif kind == 'snapshot':
-                self._snap = pickle.loads(pickle.dumps(self.pre.state_dict(include_factors=True)))
+                self._snap_live = self.pre.state_dict(include_factors=True)
+                self._snap = pickle.loads(pickle.dumps(self._snap_live))
                 self._snap_params = [p.detach().clone() for p in self.model.parameters()]
                 if self.ckpt_dir is not None:
                     dist.barrier()
@@ -180,7 +181,8 @@ class GPTRank:
                     dist.barrier()
                 with warnings.catch_warnings():
                     warnings.simplefilter('ignore')
-                    self.pre.load_state_dict(pickle.loads(pickle.dumps(self._snap)), compute_inverses=op.get('compute_inverses', True))
+                    state = self._snap_live if op.get('live') else pickle.loads(pickle.dumps(self._snap))
+                    self.pre.load_state_dict(state, compute_inverses=op.get('compute_inverses', True))
                 with torch.no_grad():
                     for p, q in zip(self.model.parameters(), self._snap_params):
                         p.copy_(q)
